@@ -42,7 +42,9 @@ CHUNK = 4
 
 
 # ------------------------------------------------------------------ formulas
-# AST: ("lit", v) | ("neg", v) | ("top",) | ("bot",) | ("dec", v, a, b) | ("and", [f...])
+# AST: ("lit", v) | ("neg", v) | ("top",) | ("bot",) | ("dec", v, a, b) | ("and", [f...]) | ("or", [f...])
+# ("or", ...) is only generated with mutually exclusive children (a deterministic disjunction), possibly nested
+# directly under another disjunction or with literal children.
 
 
 def fvars(f):
@@ -54,6 +56,32 @@ def fvars(f):
     if t == "dec":
         return frozenset([f[1]]) | fvars(f[2]) | fvars(f[3])
     return frozenset().union(*[fvars(g) for g in f[1]])
+
+
+def nested_ors(vars_):
+    """Deterministic disjunctions with a disjunction / a literal directly under a disjunction."""
+    vars_ = tuple(vars_)
+    out = []
+    for v in vars_:
+        for w in vars_:
+            if w == v:
+                continue
+            rest = [u for u in vars_ if u not in (v, w)]
+            opts = [None] + ([("lit", rest[0]), ("neg", rest[0])] if rest else [])
+
+            def conj(lits, extra):
+                return ("and", list(lits) + ([extra] if extra is not None else []))
+
+            for a1 in opts:
+                for a2 in opts:
+                    for b in opts:
+                        inner = ("or", [conj([("lit", v), ("lit", w)], a1), conj([("lit", v), ("neg", w)], a2)])
+                        out.append(("or", [inner, conj([("neg", v)], b) if b is not None else ("neg", v)]))
+            for b in opts:
+                lit_or = ("or", [("lit", v), conj([("neg", v), ("lit", w)], None)])
+                out.append(lit_or)
+                out.append(("or", [lit_or, conj([("neg", v), ("neg", w)], b)]))
+    return out
 
 
 def feval(f, x):
@@ -68,6 +96,8 @@ def feval(f, x):
         return False
     if t == "dec":
         return feval(f[2], x) if x[f[1]] else feval(f[3], x)
+    if t == "or":
+        return any(feval(g, x) for g in f[1])
     return all(feval(g, x) for g in f[1])
 
 
@@ -133,7 +163,7 @@ def formula_to_graph(f):
             in_nodes[d] = [c1, c2]
             nodes.extend([c1, c2, d])
             return d
-        c = ConjunctionNode()
+        c = DisjunctionNode() if t == "or" else ConjunctionNode()
         in_nodes[c] = [rec(h) for h in g[1]]
         nodes.append(c)
         return c
@@ -176,7 +206,7 @@ def formula_to_sdd_text(f):
 
 def sdd_able(f):
     t = f[0]
-    if t == "and":
+    if t in ("and", "or"):
         return False
     if t == "dec":
         return sdd_able(f[2]) and sdd_able(f[3])
@@ -228,6 +258,12 @@ def cases(tier, seed):
             yield {"kind": "logic", "formula": f, "via": "graph"}
             if sdd_able(f) and f[0] == "dec":
                 yield {"kind": "logic", "formula": f, "via": "sdd"}
+    for nv in (2, 3):
+        for f in nested_ors(tuple(range(nv))):
+            k = repr(f)
+            if k not in seen:
+                seen.add(k)
+                yield {"kind": "logic", "formula": f, "via": "graph"}
 
 
 def _tup(f):
@@ -239,7 +275,7 @@ def _tup(f):
         return (t,)
     if t == "dec":
         return ("dec", f[1], _tup(f[2]), _tup(f[3]))
-    return ("and", [_tup(g) for g in f[1]])
+    return (t, [_tup(g) for g in f[1]])
 
 
 # ------------------------------------------------------------------ oracles
